@@ -9,3 +9,5 @@ import LexVerif.Spec.Shortest
 import LexVerif.Model.Format
 import LexVerif.Model.WriteOpts
 import LexVerif.Model.FormatDecimal
+import LexVerif.Model.WriteInt
+import LexVerif.Model.Ops.WriteInt
